@@ -86,6 +86,9 @@ let tbl : ztable =
 let rk = rook_ref
 let bs = bishop_ref
 
+let magic_rk = lazy (magic_rook rOOK_ENTRIES)
+let magic_bs = lazy (magic_bishop bISHOP_ENTRIES)
+
 (* ---------- model state ---------- *)
 let board : board option ref = ref (Some board_new)      (* None after a Panic *)
 let stack : cmove list ref = ref []
@@ -154,8 +157,29 @@ let check_inv (b : board) =
 
 let gen_model b = match gen_moves tbl rk bs b b.turn with Ok (ms, _) -> Some ms | _ -> None
 
+(* the decidable hypotheses of the property theorems (Inv, move_ok, gen_shape, fits, counters_ok),
+   evaluated on every state at which a generator-level observation is made: a state outside
+   them is outside the domain the theorems cover and is reported *)
+let hyp_seen : (string, unit) Hashtbl.t = Hashtbl.create 4096
+let check_hyp (b : board) =
+  let id = snap_of b in
+  if not (Hashtbl.mem hyp_seen id) then begin
+    Hashtbl.replace hyp_seen id ();
+    if not (invb rk bs b) then spec_fail ("HYP invb (reachable-state invariant Inv of InvProofs2) is false in [" ^ id ^ "]");
+    if not (counters_okb b) then spec_fail ("HYP counters_okb (SuccProofs) is false in [" ^ id ^ "]");
+    if not (legal_materialb b.white && legal_materialb b.black) then spec_fail ("HYP legal_materialb (EvalProofs2) is false in [" ^ id ^ "]");
+    (match gen_model b with
+     | Some ms ->
+         List.iter (fun m ->
+             if not (move_okb b m) then spec_fail (Printf.sprintf "HYP move_okb (SuccProofs) is false for generated move %s in [%s]" (mv_text m) id);
+             if not (gen_shapeb b m) then spec_fail (Printf.sprintf "HYP gen_shapeb (InvProofs) is false for generated move %s in [%s]" (mv_text m) id);
+             if not (fitsb b m) then spec_fail (Printf.sprintf "HYP fitsb (UciProofs) is false for generated move %s in [%s]" (mv_text m) id)) ms;
+         if not (position_likeb b ms) then spec_fail ("HYP position_likeb (SanProofs) is false in [" ^ id ^ "]")
+     | None -> ())
+  end
+
 let do_gen tag (b : board) : string =
-  check_inv b;
+  check_inv b; check_hyp b;
   match gen_model b with
   | None -> "PANIC"
   | Some ms ->
@@ -177,6 +201,7 @@ let do_att b =
 let ending_char = function Some Checkmate -> 'C' | Some Stalemate -> 'S' | Some Draw -> 'D' | None -> '-'
 
 let do_verdict tag b =
+  check_hyp b;
   let t = b.turn in
   let chk = in_check rk bs b t in
   match gen_model b, game_ending tbl rk bs b t with
@@ -196,6 +221,7 @@ let do_verdict tag b =
   | _ -> "PANIC"
 
 let do_effects tag b =
+  check_hyp b;
   match gen_annotated tbl rk bs b b.turn with
   | Ok (l, _) ->
       let p = abstract b in
@@ -206,6 +232,7 @@ let do_effects tag b =
   | _ -> "PANIC"
 
 let do_san b =
+  check_hyp b;
   match gen_annotated tbl rk bs b b.turn with
   | Ok (l, b1) ->
       (match san_all b1 (List.map fst l) l with
@@ -224,6 +251,7 @@ let do_san b =
   | _ -> "PANIC"
 
 let do_uci b =
+  check_hyp b;
   match gen_model b with
   | None -> "PANIC"
   | Some ms ->
@@ -522,11 +550,15 @@ let exec (op : string) : unit =
         let mix h v = let x = Int64.mul (Int64.logxor h v) 0x100000001B3L in
           Int64.logor (Int64.shift_left x 17) (Int64.shift_right_logical x 47) in
         let digest = ref 0xcbf29ce484222325L in
+        let magic = if piece = "rook" then Lazy.force magic_rk else Lazy.force magic_bs in
         let sub = ref 0L in
         let continue = ref true in
         while !continue do
           let occ = Int64.logor !sub (Int64.shift_left 1L sq) in
           let t = if piece = "rook" then rook_ref (n_of_int sq) (n_of_u64 occ) else bishop_ref (n_of_int sq) (n_of_u64 occ) in
+          (* the magic-table model built from the entries of the current build (C11 theorem: equal) *)
+          if magic (n_of_int sq) (n_of_u64 occ) <> t then
+            spec_fail (Printf.sprintf "C11 magic-table model differs from the ray walk for %s on %d with occupancy %Lx" piece sq occ);
           digest := mix !digest (u64_of_n t);
           sub := Int64.logand (Int64.sub !sub mask) mask;
           if !sub = 0L then continue := false
